@@ -114,6 +114,9 @@ class VMDK(AlignedStream):
     def _read(self, offset: int, length: int) -> bytes:
         log.debug("VMDK::_read(0x%x, 0x%x)", offset, length)
 
+        # The aligned stream may request more than what's left of the disk, so clamp to the disk size
+        length = min(length, self.size - offset)
+
         sector = offset // SECTOR_SIZE
         count = (length + SECTOR_SIZE - 1) // SECTOR_SIZE
 
